@@ -403,13 +403,14 @@ def _api_interleaved_readers(src, dest):
             treeoutput.export(t, f, boyd_split_numbering=True)
 
 
-EMPTY_SENTENCE_OP = 5        # plain export -> export conversion also gets a sentence without tokens
+EMPTY_SENTENCE_OP = 6        # plain export -> export conversion also gets a sentence without tokens
 CONCAT_OPS = [
     ('export-gzcat', ['transform', '{src}', '{dest}'], 'export', 'dest'),
     ('discobrackets', ['transform', '{src}', '{dest}', '--src-format', 'discobrackets', '--dest-format', 'tigerxml',
                        '--src-opts', 'disco_reordered'], 'tigerxml-noid', 'dest'),
     ('discobrackets', ['transform', '{src}', '{dest}', '--src-format', 'discobrackets', '--dest-format', 'discobrackets',
                        '--src-opts', 'disco_reordered'], 'discobrackets', 'dest'),       # the writer shows absolute token positions
+    ('tigerxml0', ['transform', '{src}', '{dest}', '--src-format', 'tigerxml'], 'export', 'dest'),     # sentence ids from 0
     ('export', _api_list_then_transform, 'export', 'dest'),
     ('export', _api_interleaved_readers, 'export', 'dest'),
     ('export', ['transform', '{src}', '{dest}'], 'export', 'dest'),
@@ -417,6 +418,8 @@ CONCAT_OPS = [
                 'boyd_split', 'raising'], 'tigerxml', 'dest'),
     ('brackets', ['transform', '{src}', '{dest}', '--src-format', 'brackets', '--dest-format', 'brackets',
                   '--trans', 'negra_mark_heads', 'binarize'], 'brackets-noid', 'dest'),
+    ('brackets-stray', ['transform', '{src}', '{dest}', '--src-format', 'brackets', '--dest-format', 'brackets'],
+     'brackets-noid', 'dest'),          # a closing bracket too many after every tree (text between groups is skipped)
     ('export', ['transform', '{src}', '{dest}', '--trans', 'filter_by_length', '--params', 'filteroperator:lt', 'filtervalue:3'],
      'export', 'dest'),                 # some sentences are dropped: the others must not notice
     ('export', ['transform', '{src}', '{dest}', '--trans', 'filter_by_length', '--params', 'filteroperator:lt', 'filtervalue:3',
@@ -469,12 +472,17 @@ def _run_concat(cli, wd, fmt, argv, mts, out_name):
     elif fmt == 'discobrackets':
         with open(src, 'w', encoding='utf-8') as f:
             f.write(codecs.encode_discobrackets(mts))
+    elif fmt == 'tigerxml0':
+        with open(src, 'w', encoding='utf-8') as f:
+            f.write(codecs.encode_tigerxml([model.MT(m.sid - 1, m.toks, m.root) for m in mts]))
     else:
       with open(src, 'w', encoding='utf-8') as f:
         if fmt == 'export':
             # ('EMPTY', sid) stands for a sentence without any token: '#BOS k / #EOS k'
             f.write(''.join('#BOS %d\n#EOS %d\n' % (m[1], m[1]) if isinstance(m, tuple) else codecs.encode_export([m])
                             for m in mts))
+        elif fmt == 'brackets-stray':
+            f.write(''.join(codecs.encode_brackets([m]) + ' )\n' for m in mts))
         else:
             f.write(codecs.encode_brackets(mts))
     dest = os.path.join(d, 'dest')
@@ -529,10 +537,10 @@ def _interpret(kind, text):
 def check_concat(op_i, ia, ib):
     fmt, argv, kind, out_name = CONCAT_OPS[op_i]
     disc_pool, cont_pool = concat_pool()
-    P = cont_pool if fmt == 'brackets' else disc_pool
+    P = cont_pool if fmt.startswith('brackets') else disc_pool
     A = [('EMPTY', k + 1) if m is None else model.MT(k + 1, m.toks, m.root) for k, m in enumerate(P[ia])]
     B = [('EMPTY', len(A) + k + 1) if m is None else model.MT(len(A) + k + 1, m.toks, m.root) for k, m in enumerate(P[ib])]
-    Bsolo = B if fmt.startswith('export') else [('EMPTY', k + 1) if m is None else model.MT(k + 1, m.toks, m.root) for k, m in enumerate(P[ib])]
+    Bsolo = B if (fmt.startswith('export') or fmt == 'tigerxml0') else [('EMPTY', k + 1) if m is None else model.MT(k + 1, m.toks, m.root) for k, m in enumerate(P[ib])]
     if any(isinstance(m, tuple) for m in A + B) and op_i != EMPTY_SENTENCE_OP:
         return []
     wd = os.path.join(scratch(), 'c18c')
@@ -548,6 +556,14 @@ def check_concat(op_i, ia, ib):
     except Exception as e:
         return [{'kind': 'exception', 'where': _opname(argv), 'case': case,
                  'detail': '%s: %s' % (type(e).__name__, e), 'what': 'concatenation check raised'}]
+    if fmt == 'tigerxml0':
+        # the ids are in the file: every sentence keeps its own, wherever it stands (0 included)
+        want_ids = [m.sid - 1 for m in A + B]
+        got_ids = [x[0] for x in rab]
+        if got_ids != want_ids:
+            return [{'kind': 'sentence-ids', 'where': _opname(argv), 'case': case,
+                     'detail': 'the TIGER-XML file numbers its sentences %r, the converted file has %r' % (want_ids, got_ids),
+                     'what': 'a sentence id depends on the position of the sentence in the file'}]
     if kind == 'brackets-noid' or isinstance(ra, list):
         ok = rab == ra + rb
     else:
@@ -667,7 +683,7 @@ def run_chunk(chunk):
     elif kind == 'concat':
         disc_pool, cont_pool = concat_pool()
         fmt = CONCAT_OPS[chunk['op']][0]
-        n = len(cont_pool if fmt == 'brackets' else disc_pool)
+        n = len(cont_pool if fmt.startswith('brackets') else disc_pool)
         for ia in range(n):
             for ib in range(n):
                 vs = check_concat(chunk['op'], ia, ib)
